@@ -5,6 +5,12 @@ HERE = os.path.dirname(os.path.dirname(os.path.abspath(__file__)))
 ALL = ["C%02d" % i for i in range(1, 21)]
 
 CHECKS = {
+ "C05": dict(
+   category="model_checking",
+   text="TLC checks Framing.tla (the reader's framing loop, one action per loop exit) exhaustively for every sequence of <= 3 frames of every kind (good, undecodable, declared length 0, 1..H-1, shorter, longer than the frame), every chunking and every interleaving of network reads with the reader (H = 2): exact ordered exactly-once delivery, undecodable frames skipped, progress measure iter <= 1, termination under fairness; two pinned-behaviour variants must violate them (vacuity guards). The real work_read_queue then runs as a virtual thread on ~10^4 (thorough ~10^5) concrete streams (H = 20; every 1- and 2-cut of short streams, byte-at-a-time, random k-cuts, 8 KiB frames, every bad-length kind at every position); the C05 monitor (Mon_C05.tla) is evaluated by TLC on every execution and executions are validated by TLC as traces of Framing.",
+   design_ref="DESIGN.md section 6 C05",
+   note="Trusted: chunks enter through PeerConnection.add_in_bytes; misaligned heads are modelled as arbitrary length/decode outcome; the progress measure is header parses per dequeued chunk and buffer length.",
+   technique="TLA+ model of the framing loop checked by TLC; real reader thread driven in a deterministic runtime, per-iteration traces validated against the spec by TLC"),
  "C16": dict(
    category="model_checking",
    text="TLC checks SeqGen.tla (PlusCal, one label per source line of next_sequence/next_id) exhaustively for 2-3 callers x 1-3 draws x every start value: identifiers distinct, non-zero, consecutive, MAX -> 1; an unlocked variant must violate it (vacuity guard). The real generators are then run under every thread schedule with <= 2 (thorough: 3) preemptions at source-line grain inside a deterministic runtime; the property is evaluated on the values handed out and every distinct execution is validated by TLC as a trace of SeqGen. Full-width arithmetic (10^5 successive draws across the 32/64-bit wrap, the end-to-end initial value for all 4096 start-time residues, session id text) is compared with SeqArith.tla evaluated by TLC.",
